@@ -52,3 +52,37 @@ func spec_lcb(c byte) byte {
 //@ ext net.ParseIP(s string) (r net.IP)
 //@   pure
 //@   ensures r != nil ==> len(s) >= 2 && forall k int :: { s[k] } 0 <= k && k < len(s) ==> spec_ipChar(s[k])
+
+func spec_ucb(c byte) byte {
+	if 'a' <= c && c <= 'z' {
+		return c - 32
+	}
+	return c
+}
+
+//@ ext strings.ToUpper(s string) (r string)
+//@   pure
+//@   ensures spec_ascii(s) ==> len(r) == len(s)
+//@   ensures spec_ascii(s) ==> forall i int :: { r[i] } 0 <= i && i < len(s) ==> r[i] == spec_ucb(s[i])
+
+// Trim / TrimRight return a substring of s (cutset semantics are not needed by the callers in scope
+// beyond: the result is a contiguous part of s, and an empty cutset-free string is unchanged).
+//@ ext strings.Trim(s string, cutset string) (r string)
+//@   pure
+//@   ensures len(r) <= len(s)
+//@   ensures exists lo int :: 0 <= lo && lo + len(r) <= len(s) && r == s[lo:lo+len(r)]
+
+//@ ext strings.TrimRight(s string, cutset string) (r string)
+//@   pure
+//@   ensures len(r) <= len(s) && r == s[:len(r)]
+
+//@ ext strings.IndexRune(s string, r rune) (i int)
+//@   pure
+//@   ensures -1 <= i && i < len(s)
+//@   ensures 0 <= r && r < 128 && i >= 0 ==> s[i] == byte(r)
+//@   ensures 0 <= r && r < 128 && i >= 0 ==> forall k int :: { s[k] } 0 <= k && k < i ==> s[k] != byte(r)
+//@   ensures 0 <= r && r < 128 && i == -1 ==> forall k int :: { s[k] } 0 <= k && k < len(s) ==> s[k] != byte(r)
+
+// SplitN with n > 0 returns between 1 and n substrings in a fresh slice.
+//@ ext strings.SplitN(s string, sep string, n int) (r []string)
+//@   ensures n > 0 ==> 1 <= len(r) && len(r) <= n && vcFresh(r)
